@@ -189,7 +189,9 @@ func ingestBlocks(db objects.Store, blocks []int) ([]byte, error) {
 	if err != nil {
 		return nil, err
 	}
-	return ingest.IngestTable(db, s, io.NopCloser(bytes.NewReader(buf.Bytes())), []string{"k"}, logr.Discard())
+	// composite key declared in another order than the columns (a, k, b): code that takes key cells in column
+	// order is wrong; rows still sort by k first, so the block layout is the one described above
+	return ingest.IngestTable(db, s, io.NopCloser(bytes.NewReader(buf.Bytes())), []string{"k", "a"}, logr.Discard())
 }
 
 // BuildUniverse ingests every table (abstract id -> ascending abstract blocks).
